@@ -1,8 +1,222 @@
+import Martian.Typing
 import Driver.Util
+import Driver.C17
 
-/-! Line-protocol handler for property C07 (stub: replaced when the model exists). -/
+/-!
+Line-protocol handler for property C07 (compile-time typing of bindings).
+
+Text encoding (tokens separated by one space inside a TAB field; byte strings
+hex, `-` = empty; a path is a `,`-separated hex list, `.` = empty):
+
+  type  ::= as in Driver/C17.lean
+  json  ::= as in Driver/C17.lean
+  exp   ::= n | i <int> | d <mant> <exp> | s <bytes> | t | f
+          | a <n> <exp>{n} | m <n> (<key> <exp>){n} | S <n> (<field> <exp>){n}
+          | self <id> <path> | call <id> <path>
+  bind  ::= P <exp> | X <exp>                       (plain / split)
+  src   ::= - | A ? | A <n> | K ? | K <hexlist>
+  env   ::= <nself> (<id> <type>){nself}
+            <ncalls> (<id> <callable> <mode: s|a|m> <src> <nouts> (<out> <type>){nouts}){ncalls}
+  params::= <n> (<id> <type>){n}
+  binds ::= <n> (<id> <bind>){n}
+
+Operations (`C07.<op>\t<arg>…`):
+  exp   <env> <type> <exp>      → `<validExp> <holeFree> <refType | ->`
+  bind  <env> <type> <bind>     → `<validBind> <shape | ->`
+  call  <env> <params> <binds>  → `false` | `true <shape | ->`
+  ftype <type> <path>           → `<type>` | `none`
+  lit   <type> <exp>            → `<validExp> <json | none> <valid> <valid after filter>`   (no references)
+  proj  <type> <json> <path>    → `<json>` | `none`
+-/
 namespace Driver.C07
+open Martian.Json Martian.Types Martian.Typing Driver
+open Driver.C17 (parseTy parseJ showJ)
 
-def handle (_op : String) (_args : List String) : Option String := none
+def showBase : Base → String
+  | .string => "string" | .int => "int" | .float => "float" | .bool => "bool"
+  | .path => "path" | .file => "file" | .map => "map"
+
+mutual
+  partial def showTy : Ty → String
+    | .base b => showBase b
+    | .user n => "U " ++ hexOfBytes n
+    | .arr t => "A " ++ showTy t
+    | .tmap t => "M " ++ showTy t
+    | .struct n fs =>
+      " ".intercalate (["S", hexOfBytes n, toString fs.toList.length] ++
+        fs.toList.map fun kt => hexOfBytes kt.1 ++ " " ++ showTy kt.2)
+end
+
+mutual
+  partial def parseExp : List String → Option (Exp × List String)
+    | "n" :: r => some (.null, r)
+    | "t" :: r => some (.bool true, r)
+    | "f" :: r => some (.bool false, r)
+    | "i" :: v :: r => do let v ← v.toInt?; pure (.int v, r)
+    | "d" :: m :: e :: r => do let m ← m.toInt?; let e ← e.toInt?; pure (.float m e, r)
+    | "s" :: s :: r => do let s ← bytesOfHex s; pure (.str s, r)
+    | "a" :: c :: r => do
+      let c ← c.toNat?
+      let (xs, r) ← parseExps c r
+      pure (.arr (Exps.ofList xs), r)
+    | "m" :: c :: r => do
+      let c ← c.toNat?
+      let (kvs, r) ← parseKVs c r
+      pure (.map false (KVs.ofList kvs), r)
+    | "S" :: c :: r => do
+      let c ← c.toNat?
+      let (kvs, r) ← parseKVs c r
+      pure (.map true (KVs.ofList kvs), r)
+    | "self" :: id :: p :: r => do
+      let id ← bytesOfHex id
+      let p ← parseHexList p
+      pure (.self id p, r)
+    | "call" :: id :: p :: r => do
+      let id ← bytesOfHex id
+      let p ← parseHexList p
+      pure (.call id p, r)
+    | _ => none
+  partial def parseExps : Nat → List String → Option (List Exp × List String)
+    | 0, r => some ([], r)
+    | c + 1, r => do
+      let (x, r) ← parseExp r
+      let (xs, r) ← parseExps c r
+      pure (x :: xs, r)
+  partial def parseKVs : Nat → List String → Option (List (Bytes × Exp) × List String)
+    | 0, r => some ([], r)
+    | c + 1, k :: r => do
+      let k ← bytesOfHex k
+      let (x, r) ← parseExp r
+      let (xs, r) ← parseKVs c r
+      pure ((k, x) :: xs, r)
+    | _, [] => none
+end
+
+def parseBind : List String → Option (Bind × List String)
+  | "P" :: r => do let (e, r) ← parseExp r; pure (.plain e, r)
+  | "X" :: r => do let (e, r) ← parseExp r; pure (.split e, r)
+  | _ => none
+
+def parseSrc : List String → Option (Option SplitShape × List String)
+  | "-" :: r => some (none, r)
+  | "A" :: "?" :: r => some (some (.arr none), r)
+  | "A" :: n :: r => do let n ← n.toNat?; pure (some (.arr (some n)), r)
+  | "K" :: "?" :: r => some (some (.map none), r)
+  | "K" :: ks :: r => do let ks ← parseHexList ks; pure (some (.map (some ks)), r)
+  | _ => none
+
+partial def parseTyped : Nat → List String → Option (List (Bytes × Ty) × List String)
+  | 0, r => some ([], r)
+  | c + 1, k :: r => do
+    let k ← bytesOfHex k
+    let (t, r) ← parseTy r
+    let (xs, r) ← parseTyped c r
+    pure ((k, t) :: xs, r)
+  | _, [] => none
+
+def parseMode : String → Option Mode
+  | "s" => some .single | "a" => some .arr | "m" => some .map | _ => none
+
+partial def parseCalls : Nat → List String → Option (List (Bytes × CallSig) × List String)
+  | 0, r => some ([], r)
+  | c + 1, id :: name :: mode :: r => do
+    let id ← bytesOfHex id
+    let name ← bytesOfHex name
+    let mode ← parseMode mode
+    let (src, r) ← parseSrc r
+    match r with
+    | n :: r =>
+      let n ← n.toNat?
+      let (outs, r) ← parseTyped n r
+      let (xs, r) ← parseCalls c r
+      pure ((id, { name := name, mode := mode, src := src, outs := Fields.ofList outs }) :: xs, r)
+    | [] => none
+  | _, _ => none
+
+def parseEnv : List String → Option (Env × List String)
+  | n :: r => do
+    let n ← n.toNat?
+    let (self, r) ← parseTyped n r
+    match r with
+    | m :: r =>
+      let m ← m.toNat?
+      let (calls, r) ← parseCalls m r
+      pure ({ self := self, calls := calls }, r)
+    | [] => none
+  | [] => none
+
+partial def parseBinds : Nat → List String → Option (List (Bytes × Bind) × List String)
+  | 0, r => some ([], r)
+  | c + 1, k :: r => do
+    let k ← bytesOfHex k
+    let (b, r) ← parseBind r
+    let (xs, r) ← parseBinds c r
+    pure ((k, b) :: xs, r)
+  | _, [] => none
+
+def whole {α : Type} (p : List String → Option (α × List String)) (s : String) : Option α :=
+  match p (s.splitOn " ") with
+  | some (x, []) => some x
+  | _ => none
+
+def counted {α : Type} (p : Nat → List String → Option (α × List String)) :
+    List String → Option (α × List String)
+  | n :: r => do let n ← n.toNat?; p n r
+  | [] => none
+
+def showShape : Option SplitShape → String
+  | none => "-"
+  | some (.arr none) => "A ?"
+  | some (.arr (some n)) => s!"A {n}"
+  | some (.map none) => "K ?"
+  | some (.map (some ks)) => "K " ++ hexList ks
+
+def showOptTy : Option Ty → String
+  | some t => showTy t
+  | none => "-"
+
+def emptyEnv : Env := { self := [], calls := [] }
+def emptyStore : Store := { self := [], calls := [] }
+
+def handle (op : String) (args : List String) : Option String :=
+  match op, args with
+  | "exp", [env, t, e] => do
+    let Γ ← whole parseEnv env
+    let t ← whole parseTy t
+    let e ← whole parseExp e
+    pure (" ".intercalate [boolStr (validExp Γ t e), boolStr (holeFree Γ t e), showOptTy (refType Γ e)])
+  | "bind", [env, t, b] => do
+    let Γ ← whole parseEnv env
+    let t ← whole parseTy t
+    let b ← whole parseBind b
+    pure (" ".intercalate [boolStr (validBind Γ t b), showShape (bindShape Γ b)])
+  | "call", [env, ps, bs] => do
+    let Γ ← whole parseEnv env
+    let ps ← whole (counted parseTyped) ps
+    let bs ← whole (counted parseBinds) bs
+    match checkCall Γ ps bs with
+    | none => pure "false"
+    | some sh => pure ("true " ++ showShape sh)
+  | "ftype", [t, p] => do
+    let t ← whole parseTy t
+    let p ← parseHexList p
+    match fieldType t p with
+    | some r => pure (showTy r)
+    | none => pure "none"
+  | "lit", [t, e] => do
+    let t ← whole parseTy t
+    let e ← whole parseExp e
+    let ok := validExp emptyEnv t e
+    match eval emptyEnv emptyStore e with
+    | some v => pure (" ".intercalate [boolStr ok, showJ v, boolStr (valid t v), boolStr (valid t (filter t v).1)])
+    | none => pure (" ".intercalate [boolStr ok, "none", "false", "false"])
+  | "proj", [t, v, p] => do
+    let t ← whole parseTy t
+    let v ← whole parseJ v
+    let p ← parseHexList p
+    match project t v p with
+    | some w => pure (showJ w)
+    | none => pure "none"
+  | _, _ => none
 
 end Driver.C07
